@@ -83,6 +83,25 @@ structure CylS (α : Type) where
   radius : α
 deriving DecidableEq, Repr
 
+/-- Payload of memo slots the model does not look into (only "filled or not" matters). -/
+abbrev Opq := Unit
+
+/-- `Polygon2D` with all its memo slots (`__slots__` of `Polygon2D` and `Base2DIn2D`). -/
+structure Poly2C (α : Type) where
+  vertices : List (V2 α)
+  min : Option (V2 α)
+  max : Option (V2 α)
+  center : Option (V2 α)
+  segments : Option Opq
+  inside_angles : Option Opq
+  outside_angles : Option Opq
+  perimeter : Option α
+  area : Option α
+  is_clockwise : Option Bool
+  is_convex : Option Bool
+  is_self_intersecting : Option Bool
+deriving Repr
+
 /-- The `math` module as seen by generated kernels.  Theorems assume only the laws they
 need, as explicit hypotheses; the driver instantiates it with IEEE doubles. -/
 structure MathOps (α : Type) where
